@@ -29,6 +29,7 @@ func main() {
 		runtime.GOMAXPROCS(*procs)
 	}
 	initCurve()
+	initConstGuard()
 	var ops []string
 	if *replay != "" {
 		f, err := os.Open(*replay)
@@ -66,26 +67,33 @@ func main() {
 		}
 		return
 	}
+	concurrentMode = true
 	// concurrent execution: goroutine i takes ops i, i+conc, ...; shared read-only inputs arise because
 	// the history repeats ops; results are printed in op order
 	res := make([]string, len(ops))
-	var wg sync.WaitGroup
-	start := make(chan struct{})
-	for gi := 0; gi < *conc; gi++ {
-		wg.Add(1)
-		go func(gi int) {
-			defer wg.Done()
-			<-start
-			for i := gi; i < len(ops); i += *conc {
-				res[i] = execOp(ops[i])
-				if i%7 == gi%7 {
+	// rounds of `conc` consecutive ops started together behind a barrier, so that neighbouring ops of the
+	// generated history (in particular the kind-grouped section) really run simultaneously
+	for base := 0; base < len(ops); base += *conc {
+		var wg sync.WaitGroup
+		start := make(chan struct{})
+		for gi := 0; gi < *conc && base+gi < len(ops); gi++ {
+			wg.Add(1)
+			go func(i int) {
+				defer wg.Done()
+				<-start
+				if i%3 == 0 {
 					runtime.Gosched()
 				}
-			}
-		}(gi)
+				res[i] = execOp(ops[i])
+			}(base + gi)
+		}
+		close(start)
+		wg.Wait()
 	}
-	close(start)
-	wg.Wait()
+	concurrentMode = false
+	if g := constGuard(); g != "" && len(res) > 0 {
+		res[len(res)-1] += g
+	}
 	for i, op := range ops {
 		fmt.Fprintf(w, "%s\t%s\n", op, res[i])
 	}
